@@ -14,7 +14,9 @@ import (
 	"context"
 	"crypto/rand"
 	"crypto/rsa"
+	"crypto/sha256"
 	"crypto/x509"
+	"encoding/base64"
 	"encoding/json"
 	"encoding/pem"
 	"fmt"
@@ -270,6 +272,14 @@ func (c cval) describe() string {
 		return fmt.Sprintf("mac%d/%s/%x", c.k, c.name, c.value)
 	}
 	return c.label
+}
+
+// s256 is the ground truth for "the matching S256 challenge" (RFC 7636 section 4.2:
+// BASE64URL-ENCODE(SHA256(ASCII(code_verifier))), no padding), computed WITHOUT the
+// library's oidc.NewSHACodeChallenge / crypto.HashString.
+func s256(verifier string) string {
+	h := sha256.Sum256([]byte(verifier))
+	return base64.RawURLEncoding.EncodeToString(h[:])
 }
 
 // ---------- the relying party under test ----------
@@ -791,7 +801,7 @@ func (x *runner) exec(o op) {
 		for _, c := range cs {
 			if !c.del && c.name == "pkce" && c.e.sym.mac {
 				verifier = c.e.sym.value
-				x.res.htab[verifier] = oidc.NewSHACodeChallenge(verifier)
+				x.res.htab[verifier] = s256(verifier)
 			}
 		}
 		opCoq := emit.Ctor("OStart", emit.Str(o.state), emit.Str(verifier))
@@ -876,6 +886,9 @@ func (x *runner) exec(o op) {
 		var reqs []string
 		for _, t := range treqs {
 			reqs = append(reqs, t.coq())
+			if t.verifier != nil { // whatever verifier is sent: its independent S256 hash is what the redirect must have carried
+				x.res.htab[*t.verifier] = s256(*t.verifier)
+			}
 		}
 		applyNow := o.apply && !late
 		x.res.opsCoq[idx] = emit.Ctor("OCallback", pairs(form), emit.Bool(o.tokOK), emit.Bool(applyNow))
